@@ -273,6 +273,13 @@ pub fn stmt_forms() -> Vec<(String, Stmt)> {
         ("assign-indexed".into(), Stmt::Assign { target: LValue::Indexed("x".into(), vec![Index::List(vec![IndexItem::Expr(int(0))])]), op: AssignOp::Assign, value: id("b") }),
         ("expr-stmt-call".into(), Stmt::ExprStmt(Expr::Call("f".into(), vec![id("a")]))),
         ("expr-stmt-binop".into(), Stmt::ExprStmt(Expr::Bin(BinOp::Add, bx(id("a")), bx(id("b"))))),
+        ("expr-stmt-paren".into(), Stmt::ExprStmt(Expr::Paren(bx(id("a"))))),
+        ("expr-stmt-paren-binop".into(), Stmt::ExprStmt(Expr::Bin(BinOp::Mul, bx(Expr::Paren(bx(Expr::Bin(BinOp::Add, bx(id("a")), bx(id("b")))))), bx(id("c"))))),
+        ("expr-stmt-neg".into(), Stmt::ExprStmt(Expr::Un(UnOp::Neg, bx(id("y"))))),
+        ("expr-stmt-not".into(), Stmt::ExprStmt(Expr::Un(UnOp::Not, bx(id("y"))))),
+        ("expr-stmt-bitnot".into(), Stmt::ExprStmt(Expr::Un(UnOp::BitNot, bx(id("y"))))),
+        ("expr-stmt-literal".into(), Stmt::ExprStmt(int(5))),
+        ("expr-stmt-indexed".into(), Stmt::ExprStmt(Expr::IndexedId("x".into(), vec![Index::List(vec![IndexItem::Expr(int(0))])]))),
         ("pragma".into(), Stmt::Pragma("pragma user x y".into())),
         ("hash-pragma".into(), Stmt::Pragma("#pragma z".into())),
         ("annotated-decl".into(), Stmt::Annotated(vec!["@bind a".into()], Box::new(Stmt::ClassicalDecl { konst: false, ty: Ty::Int(None), name: "x".into(), init: None }))),
